@@ -279,13 +279,28 @@ def check_find_range(fx, rep, rule):
 def check_line_mapping_rule(fx, rep, rule):
     """C01.P1: the parser builds a LineMapping only for a usable range"""
     cands = []
+    in_closure = False
     for p, b in fx.bodies.items():
-        if b["krate"] != "proguard" or b["kind"] != "Fn":
+        if b["krate"] != "proguard" or b["kind"] not in ("Fn", "Closure") or "::mapping::" not in p:
             continue
         for n in F.walk(b["body"]):
             if n.get("k") == "Adt" and n["adt"].endswith("mapping::LineMapping"):
-                cands.append((p, b))
+                if b["kind"] == "Fn":
+                    cands.append((p, b))
+                else:
+                    in_closure = True
                 break
+    if not cands and in_closure:
+        # the LineMapping is built inside a combinator closure (`zip().filter().map(|..| LineMapping {..})`): decided per grammar
+        # path by the member-parser wiring rule (same statement, semantic form)
+        import parser_rules as _PR3
+        if not any("member/capture-wiring" in i_["key"] for i_ in rep.instances):
+            _PR3.check_member_parser(fx, rep, rule)
+        okw = any("member/capture-wiring" in i_["key"] and i_["status"] == "pass" for i_ in rep.instances)
+        rep.check(rule, "%s/line-mapping/usable-range" % rule, okw, loc="src/mapping.rs",
+                  found="decided on the grammar paths (member/capture-wiring): Some(LineMapping) iff both obfuscated numbers > 0",
+                  expected="Some(LineMapping) iff both obfuscated line numbers are present and > 0", nontrivial=False)
+        return
     rep.floor(rule, len(cands), 1, "construction sites of LineMapping in the parser")
     for p, b in cands:
         rep.fn(p)
